@@ -3,6 +3,9 @@ import struct
 from lib import *
 
 SPEC_FLAT = True
+# thorough tier: also the Flocq cross-check of the specification (depends on the stdlib's classical real-number axioms, allowlisted)
+THOROUGH_EXTRA_PROPS = ["C12_flocq"]
+
 RULE = ("F16D h: the item f9 hh hh read through Decoder::f16/f32/f64 and the f16 result re-encoded with Encoder::f16 — all 65536 half "
         "patterns on every run. F16E x: Encoder::f16 on an f32 pattern — for both signs and every one of the 256 exponents the mantissas "
         "0,1,0xfff,0x1000,0x1001,0x1fff,0x2000,0x3000,0x7fffff and the rounding ties +-1 (normal results: bit 12 set above an even/odd "
